@@ -292,6 +292,42 @@ def r06_6(ctx, rep):
     rep.require_instances(R, 2, "ownership sources")
 
 
+def kept_by_reference(ctx, rep, R):
+    """Everything a __deepcopy__ hook of ast.py puts into the memo before copying (memo[id(X)] = X, memo.setdefault(id(X), X),
+    memo.update({id(X): X})) is shared between the copy and the original.  The only object that may be: the parent link of a
+    Class (and through it the enclosing tree).  Any other pre-seeded object (a clause list, a symbol table) makes every copy
+    — the ones flatten works on included — alias that part of the caller's tree."""
+    n = 0
+    for cls, fn, selfp, memo in _deepcopy_methods(ctx, R):
+        site = "%s:%s.__deepcopy__" % (AST, cls)
+        for node in ast.walk(fn):
+            kept = []
+            if isinstance(node, ast.Assign) and isinstance(node.targets[0], ast.Subscript) and is_name(node.targets[0].value, memo) and _is_id_key(node.targets[0].slice):
+                kept.append(node.targets[0].slice.args[0])
+            elif isinstance(node, ast.Call) and isinstance(node.func, ast.Attribute) and is_name(node.func.value, memo) and node.func.attr in ("setdefault", "__setitem__") \
+                    and node.args and _is_id_key(node.args[0]):
+                kept.append(node.args[0].args[0])
+            elif isinstance(node, ast.Call) and isinstance(node.func, ast.Attribute) and is_name(node.func.value, memo) and node.func.attr == "update":
+                for x in ast.walk(node):
+                    if _is_id_key(x):
+                        kept.append(x.args[0])
+            for obj in kept:
+                n += 1
+                rep.ob(R, site, "kept by reference: %s" % norm(obj), norm(obj) == "%s.parent" % selfp,
+                       "`%s` is put into the deepcopy memo, so every copy of a %s shares it with the original: what flatten (or an edit) does to "
+                       "the copy's %s happens to the caller's tree too — only the parent link may be kept by reference" % (norm(obj), cls, norm(obj).split(".")[-1]))
+    if n < 1:
+        raise MechanismMissing(R, "no keep-by-reference memo entry found (Class.__deepcopy__ keeps its parent)")
+
+
+@SPEC.rule(
+    "R06.7",
+    "a deep copy shares nothing but the parent link: the only object a __deepcopy__ hook pre-seeds in the memo is self.parent",
+)
+def r06_7(ctx, rep):
+    kept_by_reference(ctx, rep, "R06.7")
+
+
 # -- seeded variants ---------------------------------------------------------
 from ._mut import delete_stmt_where, find_def, replace_in_func  # noqa: E402
 
@@ -352,3 +388,15 @@ def _m_parent(mod):
 @SPEC.mutant("extend without parent refresh", AST, "R06.5", "Tree.extend")
 def _m_extend(mod):
     return mod if delete_stmt_where(mod, "Tree.extend", lambda st: "update_parent_refs" in norm(st)) else None
+
+
+@SPEC.mutant("extends clauses kept by reference", AST, "R06.7", "kept by reference")
+def _m_keep_extends(mod):
+    def edit(fn):
+        for i, st in enumerate(fn.body):
+            if isinstance(st, ast.If) and "self.parent" in norm(st.test) and "memo" in norm(st.test):
+                fn.body.insert(i + 1, ast.parse("memo.setdefault(id(self.extends), self.extends)").body[0])
+                return True
+        return False
+
+    return mod if replace_in_func(mod, "Class.__deepcopy__", edit) else None
